@@ -4,7 +4,7 @@ C10 — model of `pycoin/satoshi/der.py`: `encode_integer`, `encode_length`, `en
 `remove_sequence`, `remove_integer`, `sigencode_der`, `sigdecode_der`.
 
 Python semantics kept explicit:
-* `ord(string[:1])` on an empty slice is a `TypeError`; `int(binascii.hexlify(b""), 16)` is a `ValueError`;
+* `int(binascii.hexlify(b""), 16)` is a `ValueError` (`ord(b"")` would be a `TypeError`: not reachable any more);
   `bytes([v])` with `v ≥ 256` is a `ValueError`; `assert r >= 0` is an `AssertionError`;
 * slices silently truncate (`remove_sequence` never checks that the announced length is available);
 * for a byte `b`, `b & 0x80 == 0` is written `b < 0x80` and `b & 0x7f` (when the top bit is set) `b - 0x80`.
@@ -36,10 +36,6 @@ def encodeLength (l : Nat) : Except Err Bytes :=
     let v := 0x80 ||| b.length
     if v < 256 then .ok (UInt8.ofNat v :: b) else .error .valueError
 
-/-- `bytes([l])`: a `ValueError` outside `range(256)` -/
-def lenByte (l : Nat) : Except Err Bytes :=
-  if l < 256 then .ok [UInt8.ofNat l] else .error .valueError
-
 /-- `encode_integer(r)` -/
 def encodeInteger (r : Int) : Except Err Bytes :=
   if r < 0 then .error .assertionError
@@ -49,11 +45,11 @@ def encodeInteger (r : Int) : Except Err Bytes :=
     | [] => .error .typeError                       -- `ord(b"")`; never happens (`hexBytes` is never empty)
     | b :: _ =>
       if b.toNat ≤ 0x7F then
-        match lenByte s.length with
+        match encodeLength s.length with
         | .error e => .error e
         | .ok l => .ok (0x02 :: (l ++ s))
       else
-        match lenByte (s.length + 1) with
+        match encodeLength (s.length + 1) with
         | .error e => .error e
         | .ok l => .ok (0x02 :: (l ++ 0x00 :: s))
 
@@ -66,7 +62,7 @@ def encodeSequence (pieces : List Bytes) : Except Err Bytes :=
 /-- `read_length(string)` → `(length, bytes used)` -/
 def readLength (s : Bytes) : Except Err (Nat × Nat) :=
   match s with
-  | [] => .error .typeError
+  | [] => .error .unexpectedDER                       -- `if len(string) == 0: raise UnexpectedDER`
   | s0 :: _ =>
     if s0.toNat < 0x80 then .ok (s0.toNat, 1)
     else
